@@ -1,7 +1,7 @@
 """C08 — I/O failures are never swallowed."""
 from lib import kv
 PID = "C08"
-LEVEL = "exploration"
+LEVEL = "proof"
 RULE = ("scenarios (NONE/NONE 1 MiB blocks with the end marker on the flush boundary, multi-flush single block, LZ/HUFFMAN 3 jobs, "
         "random configurations with 64..512 KiB blocks): the sink fails at its k-th Write for EVERY k of the fault-free run "
         "(transient and permanent) and at its Close; Write..., Close, Close, Close are issued: no panic, an error must be returned, "
